@@ -657,6 +657,12 @@ def lifecycle():
     emit_nat("rcvtimeoNoneWaits", len(re.findall(r"None => self\.queue\.pop\(\)\.await\?", ai2)))
     dl = strip_comments(src("core/src/socket/dealer_socket.rs"))
     emit_nat("dealerQueuesOnlyReturnedMessages", 1 if re.search(r"Err\(\(returned, ZmqError::ResourceLimitReached\)\) => \{\s*self\.queue_message_or_error", dl) and re.search(r"try_route_sync\(zmtp_frames_for_logical_message\)", dl) else 0)
+    # DEALER: a send queues behind older pending messages; the processor keeps a failed message at the FRONT and does not
+    # wait inside the send; the backlog counter is raised with the push and lowered only after a successful hand-over
+    emit_nat("dealerSendQueuesBehindBacklog", 1 if re.search(r"if self\.pending_backlog\.load\([^)]*\) > 0 \{\s*return self\.queue_message_or_error\(", dl) else 0)
+    emit_nat("dealerProcessorRequeuesAtFront", 1 if re.search(r"Err\(\(returned, _\)\) => \{.*?self\.pending_queue\.lock\(\)\.await\.push_front\(returned\);", dl, re.S) else 0)
+    emit_nat("dealerBacklogCountsPushAndHandOver", 1 if re.search(r"queue_guard\.push_back\(full_message_parts\);\s*self\.pending_backlog\.fetch_add\(1", dl)
+             and re.search(r"Ok\(\(\)\) => \{\s*self\.pending_backlog\.fetch_sub\(1", dl) else 0)
     emit_nat("dealerPendingBoundedBySndhwm", 1 if re.search(r"if queue_guard\.len\(\) < global_sndhwm \{", dl) else 0)
     # multipart stash: what happens to the unread frames of a message on deregister / recv_multipart
     ai = strip_comments(src("core/src/socket/patterns/anonymous_ingress.rs"))
